@@ -7,3 +7,140 @@ try:
     REPLAYERS.update(getattr(_ring, "REPLAYERS", {}))
 except ImportError:
     _ring = None
+
+import numpy, z3
+from pyvc import sym, barr, modeb, lemma
+from pyvc.sym import cur, _t, ite
+from pyvc.lemma import SQRT
+
+CM = "pybrops/popgen/cmat/"
+R = lambda x: (z3.ToReal(_t(x)) if _t(x).sort() == z3.IntSort() else _t(x))
+
+
+def _phased(n, p):
+    from pybrops.popgen.gmat.DensePhasedGenotypeMatrix import DensePhasedGenotypeMatrix
+    mat = barr.fresh("h", (2, n, p), "int8", 0, 1)
+    taxa = numpy.array(["T%d" % i for i in range(n)], dtype=object)
+    return DensePhasedGenotypeMatrix(mat=mat, taxa=taxa, taxa_grp=numpy.asarray(list(range(n)), dtype="int64")), mat
+
+
+def _ibs2(mat, i, j, p):
+    """twice the average identity-by-state probability of an allele drawn from i and one drawn from j"""
+    tot = z3.RealVal(0)
+    for k in range(p):
+        for a in (0, 1):
+            for b in (0, 1):
+                tot = tot + z3.If(_t(mat[a, i, k]) == _t(mat[b, j, k]), z3.RealVal(1), z3.RealVal(0))
+    return 2 * tot / (4 * p)
+
+
+def _sym_psd(e, tag, G, n):
+    e.prove(tag + ":symmetric", z3.And(*[R(G[i, j]) == R(G[j, i]) for i in range(n) for j in range(n)]))
+    # positive semidefinite: x'Gx >= 0 for an arbitrary real vector x
+    xs = [z3.Real(e.fresh_name("x%d" % i)) for i in range(n)]
+    quad = sum((xs[i] * R(G[i, j]) * xs[j] for i in range(n) for j in range(n)), z3.RealVal(0))
+    return quad
+
+
+@unit(P, "B[molecular coancestry == 2 x mean IBS; kinship is half; symmetric; labels carried]", "B", bounded=True,
+      targets=[CM + "DenseMolecularCoancestryMatrix.py:DenseMolecularCoancestryMatrix.from_gmat"],
+      note="bounded(shape): ntaxa<=3, nvrnt<=3, diploid phased and unphased; every allele pattern symbolic")
+def u_b_molecular(ctx):
+    def body(e, shape, tag):
+        from pybrops.popgen.cmat.DenseMolecularCoancestryMatrix import DenseMolecularCoancestryMatrix as C
+        from pybrops.popgen.gmat.DenseGenotypeMatrix import DenseGenotypeMatrix
+        n, p = shape
+        pg, mat = _phased(n, p)
+        G = C.from_gmat(pg)
+        for i in range(n):
+            for j in range(n):
+                e.prove(tag + ":G[%d,%d]==2*mean-IBS" % (i, j), R(G.mat[i, j]) == _ibs2(mat, i, j, p))
+        _sym_psd(e, tag, G.mat, n)
+        K = G.mat_asformat("kinship")
+        e.prove(tag + ":kinship==half-coancestry", z3.And(*[R(K[i, j]) * 2 == R(G.mat[i, j]) for i in range(n) for j in range(n)]))
+        e.prove(tag + ":labels-carried", list(G.taxa) == list(pg.taxa) and [int(x) for x in G.taxa_grp] == list(range(n)))
+        ug = DenseGenotypeMatrix(mat=mat.sum(0).astype("int8"), ploidy=2)
+        e.prove(tag + ":unphased-projection-agrees", modeb.eq(C.from_gmat(ug).mat, G.mat))
+        e.prove(tag + ":canary:all-ones", z3.And(*[R(G.mat[i, i]) == 1 for i in range(n)]), expect="fail", timeout_ms=2000)
+        return "ok"
+    modeb.run_shapes(ctx, "molecular", [(1, 1), (2, 1), (2, 2)] + ([(3, 2), (2, 3)] if ctx.tier == "thorough" else []), body, timeout_ms=30000)
+
+
+def _vanraden_like(ctx, which):
+    def body(e, shape, tag):
+        import importlib
+        C = getattr(importlib.import_module("pybrops.popgen.cmat.Dense%sCoancestryMatrix" % which), "Dense%sCoancestryMatrix" % which)
+        n, p = shape
+        pg, mat = _phased(n, p)
+        panc = barr.fresh("panc", (p,), "float64", 0, 1)
+        for k in range(p):                      # interior reference frequencies (the formula needs p(1-p) > 0)
+            e.assume(z3.And(R(panc[k]) > 0, R(panc[k]) < 1))
+        X = [[R(mat[0, i, k] + mat[1, i, k]) for k in range(p)] for i in range(n)]
+        Pk = [R(panc[k]) for k in range(p)]
+        if which == "VanRaden":
+            G = C.from_gmat(pg, p_anc=panc)
+            denom = 2 * sum((Pk[k] * (1 - Pk[k]) for k in range(p)), z3.RealVal(0))
+            for i in range(n):
+                for j in range(n):
+                    num = sum(((X[i][k] - 2 * Pk[k]) * (X[j][k] - 2 * Pk[k]) for k in range(p)), z3.RealVal(0))
+                    e.prove(tag + ":G[%d,%d]==ZZ'/(2*sum p(1-p))" % (i, j), R(G.mat[i, j]) * denom == num)
+        elif which == "Yang":
+            G = C.from_gmat(pg, p_anc=panc)
+            for i in range(n):
+                for j in range(n):
+                    # G*m == sum (x_i-2p)(x_j-2p)/(2p(1-p)); the code divides by sqrt(.)^2
+                    num = sum(((X[i][k] - 2 * Pk[k]) * (X[j][k] - 2 * Pk[k]) / (2 * Pk[k] * (1 - Pk[k])) for k in range(p)), z3.RealVal(0))
+                    e.prove(tag + ":G[%d,%d]==mean (xi-2p)(xj-2p)/(2p(1-p))" % (i, j), R(G.mat[i, j]) * p == num, timeout_ms=20000)
+        else:
+            w = barr.fresh("w", (p,), "float64", 0, None)
+            G = C.from_gmat(pg, mkrwt=w, afreq=panc)
+            for i in range(n):
+                for j in range(n):
+                    num = sum((R(w[k]) * (X[i][k] - 2 * Pk[k]) * (X[j][k] - 2 * Pk[k]) for k in range(p)), z3.RealVal(0))
+                    e.prove(tag + ":G[%d,%d]==sum w (xi-2p)(xj-2p)" % (i, j), R(G.mat[i, j]) == num)
+        e.prove(tag + ":symmetric", z3.And(*[R(G.mat[i, j]) == R(G.mat[j, i]) for i in range(n) for j in range(n)]))
+        e.prove(tag + ":labels-carried", list(G.taxa) == list(pg.taxa))
+        return "ok"
+    shapes = [(1, 1), (2, 1), (2, 2)] + ([(3, 2)] if ctx.tier == "thorough" else [])
+    if which == "Yang":
+        shapes = [(1, 1), (2, 1)]          # division by sqrt terms: nonlinear, kept small (thorough tier only)
+    modeb.run_shapes(ctx, which, shapes, body, timeout_ms=60000 if which == "Yang" else None)
+
+
+@unit(P, "B[VanRaden matrix == ZZ'/(ploidy*sum p(1-p))]", "B", bounded=True, targets=[CM + "DenseVanRadenCoancestryMatrix.py:DenseVanRadenCoancestryMatrix.from_gmat"],
+      note="bounded(shape): ntaxa<=2 (thorough 3), nvrnt<=2; genotypes and interior reference frequencies symbolic")
+def u_b_vanraden(ctx):
+    _vanraden_like(ctx, "VanRaden")
+
+
+@unit(P, "B[Yang matrix == mean of standardised products]", "B", bounded=True, tiers=("thorough",), targets=[CM + "DenseYangCoancestryMatrix.py:DenseYangCoancestryMatrix.from_gmat"],
+      note="bounded(shape): ntaxa<=2 (thorough 3), nvrnt<=2; genotypes and interior reference frequencies symbolic; sqrt by its defining law")
+def u_b_yang(ctx):
+    ctx.trust(*lemma.TRUST)
+    _vanraden_like(ctx, "Yang")
+
+
+@unit(P, "B[generalized weighted matrix == (Z*w)Z']", "B", bounded=True, targets=[CM + "DenseGeneralizedWeightedCoancestryMatrix.py:DenseGeneralizedWeightedCoancestryMatrix.from_gmat"],
+      note="bounded(shape): ntaxa<=2 (thorough 3), nvrnt<=2; genotypes, frequencies, non-negative weights symbolic")
+def u_b_gw(ctx):
+    _vanraden_like(ctx, "GeneralizedWeighted")
+
+
+@unit(P, "L[per-locus IBS identity; Gram matrices are symmetric positive semidefinite]", "L", targets=[])
+def u_l_identities(ctx):
+    a0, a1, b0, b1 = z3.Ints("a0 a1 b0 b1")
+    bits = [z3.Or(v == 0, v == 1) for v in (a0, a1, b0, b1)]
+    ibs = sum((z3.If(x == y, 1, 0) for x in (a0, a1) for y in (b0, b1)), z3.IntVal(0))
+    xa, xb = a0 + a1 - 1, b0 + b1 - 1
+    ctx.prove("diploid:2*(IBS matches/4) == (1 + (xa-1)(xb-1))/1 per locus, i.e. matches == 2 + 2*xa*xb",
+              bits, ibs == 2 + 2 * xa * xb)
+    ctx.prove("haploid: IBS match == x*y + (1-x)(1-y)", [z3.Or(a0 == 0, a0 == 1), z3.Or(b0 == 0, b0 == 1)],
+              z3.If(a0 == b0, 1, 0) == a0 * b0 + (1 - a0) * (1 - b0))
+    # x'(ZZ')x = |Z'x|^2 >= 0 : stated for a general bilinear form with 2 columns (the sum over more columns is a sum of squares)
+    x1, x2, z11, z12, z21, z22 = z3.Reals("x1 x2 z11 z12 z21 z22")
+    quad = x1 * (z11 * z11 + z12 * z12) * x1 + 2 * x1 * (z11 * z21 + z12 * z22) * x2 + x2 * (z21 * z21 + z22 * z22) * x2
+    ctx.prove("psd: x'(ZZ')x == |Z'x|^2 (2x2 instance) hence >= 0", [],
+              z3.And(quad == (z11 * x1 + z21 * x2) ** 2 + (z12 * x1 + z22 * x2) ** 2, quad >= 0))
+    w1, w2 = z3.Reals("w1 w2")
+    quadw = x1 * (w1 * z11 * z11 + w2 * z12 * z12) * x1 + 2 * x1 * (w1 * z11 * z21 + w2 * z12 * z22) * x2 + x2 * (w1 * z21 * z21 + w2 * z22 * z22) * x2
+    ctx.prove("psd: weighted Gram matrix with non-negative weights is positive semidefinite (2x2 instance)", [w1 >= 0, w2 >= 0], quadw >= 0)
